@@ -141,7 +141,13 @@ func loadFindings(path string) ([]finding, error) {
 
 // Finish prints the verdict, writes the replay report and the evidence file,
 // and returns the process exit code.
+var outDirGlobal string
+
 func (r *Report) Finish(verifDir string) int {
+	out := outDirGlobal
+	if out == "" {
+		out = verifDir
+	}
 	findings, err := loadFindings(filepath.Join(verifDir, "known-findings.tsv"))
 	if err != nil {
 		fmt.Printf("error reading known-findings.tsv: %v\n", err)
@@ -213,8 +219,8 @@ func (r *Report) Finish(verifDir string) int {
 	code := 0
 	if len(viol) > 0 {
 		code = 1
-		os.MkdirAll(filepath.Join(verifDir, "reports"), 0o755)
-		rp := filepath.Join(verifDir, "reports", fmt.Sprintf("%s-%s.json", r.Prop, r.Tier))
+		os.MkdirAll(filepath.Join(out, "reports"), 0o755)
+		rp := filepath.Join(out, "reports", fmt.Sprintf("%s-%s.json", r.Prop, r.Tier))
 		b, _ := json.MarshalIndent(map[string]any{"property": r.Prop, "tier": r.Tier, "violations": viol, "replay": fmt.Sprintf("./run.sh %s %s", r.Prop, r.Tier)}, "", " ")
 		os.WriteFile(rp, b, 0o644)
 		for _, o := range viol {
@@ -222,7 +228,7 @@ func (r *Report) Finish(verifDir string) int {
 		}
 		fmt.Printf("VIOLATION property=%s replay=%s\n", r.Prop, rp)
 	}
-	r.writeEvidence(verifDir, nOK, nPath, len(viol), knownHit, perRule)
+	r.writeEvidence(out, nOK, nPath, len(viol), knownHit, perRule)
 	return code
 }
 
